@@ -457,7 +457,7 @@ def run_mc_stage(prop, tier, specdir, work):
     return mc_results
 
 
-CARRY_PROPS = {"C01", "C02", "C03", "C04", "C05", "C06", "C07", "C11", "C12", "C13", "C14"}   # generators that replay the carry-coverage corpus
+CARRY_PROPS = {"C01", "C02", "C03", "C04", "C05", "C06", "C07", "C09w", "C11", "C12", "C13", "C14"}   # generators that replay the carry-coverage corpus
 CARRY_STORED = os.path.join(VERIF, "corpus", "carry.json")
 CARRY_INFO = {}
 
